@@ -231,7 +231,9 @@ CHECKS = {
         'embedded object of the tree, at any depth, has content.xml and styles.xml in the folder its reference names, declared with its '
         'media type, its pictures below that folder; load() turns every object folder of a manifest (any number, any order, nested) into '
         'an object with that very folder, so load+save writes it back under the same path and media type, and every other member '
-        'below object folders travels byte-identically. Tied by correspondence (addObject results, classification of manifest entries, '
+        'below object folders travels byte-identically; an object whose content.xml is not OpenDocument (plain MathML: `foreign`, a '
+        'parameter of the model whose value the harness takes from the library\'s own __isOpenDocumentPart) is no sub-document, all its '
+        'files are such members (C16_foreign_object_files). Tied by correspondence (addObject results, classification of manifest entries, '
         'archive) and an oracle resolving every returned reference / draw:object href against the archive.',
    note='Axioms: none. Objects attached child-first with default names get colliding folders (recorded finding if it reproduces).',
    tech='Coq proof over the package writer/reader model + correspondence',
